@@ -162,6 +162,58 @@ fn body(space: Space) -> impl Fn(&Ch) -> Run + Sync + Send {
           case(),
         );
       }
+      // "the graph reports itself as code-only": a further build on the
+      // pruned graph behaves like a code-only build - first root built with
+      // all dependency kinds, pruned, second root added afterwards, against
+      // the CodeOnly build of both roots
+      if two_roots && a == c {
+        let stepwise = (|| -> Result<ModuleGraph, DriveError> {
+          let sched = Sched::new(SchedMode::Immediate);
+          let loader = ScriptedLoader::new(sched);
+          world.install(&loader);
+          let mut g = ModuleGraph::new(GraphKind::All);
+          build_graph(&mut g, vec![roots[0].clone()], &loader, BuildCfg { skip_dynamic_deps: skip_dynamic, is_dynamic, unstable_bytes: unstable, unstable_text: unstable, ..Default::default() }, ch)?;
+          g.prune_types();
+          build_graph(&mut g, vec![roots[1].clone()], &loader, BuildCfg { skip_dynamic_deps: skip_dynamic, is_dynamic, unstable_bytes: unstable, unstable_text: unstable, ..Default::default() }, ch)?;
+          Ok(g)
+        })();
+        match stepwise {
+          Err(_) => run.violate("build-did-not-finish", "build on the pruned graph deadlocked", world.describe()),
+          Ok(g) => {
+            run.evals += 1;
+            let s = code_view(&g);
+            if s != c {
+              let comp = ["slots", "redirects", "code_edges", "valid", "has_node_specifier"].iter().find(|k| s[**k] != c[**k]).unwrap();
+              let detail = diff_detail(&s[*comp], &c[*comp]);
+              // recorded finding (see C19): whether a JSON file without
+              // attribute / a file of unknown media type is accepted is decided
+              // by the first load of its slot and sticks for later builds
+              let lenient = |v: &Value| v.as_str().is_some_and(|s| s == "json" || s.starts_with("js:") || s == "error:Parse");
+              let rejected = |v: &Value| v.as_str().is_some_and(|s| s.starts_with("error:UnsupportedMediaType"));
+              let ss = s["slots"].as_object().unwrap();
+              let cs = c["slots"].as_object().unwrap();
+              let json_leniency = ss.len() == cs.len()
+                && ss.iter().any(|(k, va)| cs.get(k) != Some(va))
+                && ss.iter().all(|(k, va)| {
+                  let Some(vc) = cs.get(k) else { return false };
+                  va == vc || (lenient(va) && rejected(vc)) || (rejected(va) && lenient(vc))
+                });
+              run.violate(
+                if json_leniency {
+                  "leniency-of-first-load-sticks-across-builds@build-on-pruned-graph".to_string()
+                } else {
+                  format!("build-on-pruned-graph-differs-from-code-only@{comp}:{}", detail.0)
+                },
+                format!("build([root 0]) with all kinds, prune_types(), build([root 1]) differs from a CodeOnly build of both roots in `{comp}`: {}", detail.1),
+                json!({"world": world.describe(), "roots": roots.iter().map(|r| r.as_str()).collect::<Vec<_>>(), "is_dynamic": is_dynamic, "unstable_text_bytes": unstable, "stepwise": s, "code_only": c}),
+              );
+            }
+            if g.graph_kind() != GraphKind::CodeOnly || g.modules().any(|m| m.js().is_some_and(|j| j.maybe_types_dependency.is_some()) || m.dependencies().values().any(|d| !d.maybe_type.is_none())) {
+              run.violate("build-on-pruned-graph-brings-types-back", "type information in a graph that reports itself as code-only", json!({"world": world.describe()}));
+            }
+          }
+        }
+      }
       // residue of types in the pruned graph
       if all.graph_kind() != GraphKind::CodeOnly {
         run.violate("pruned-not-code-only", "graph_kind() is not CodeOnly", case());
